@@ -36,6 +36,8 @@ type Applied struct {
 	Snap    *Snapshot // state before the block
 	Digest  types.Hash256 // canonical digest of the ApplyUpdate
 	Eff     Effects
+	AU      consensus.ApplyUpdate
+	CSBytes []byte // encoding of the state after the block
 }
 
 // Snapshot is a deep copy of the mutable parts of a World.
@@ -216,7 +218,10 @@ func (w *World) applyUnchecked(prev *World, b types.Block, bs consensus.V1BlockS
 	if p := w.placeLeaves(au, eff, oldLeaves); p != nil {
 		return p
 	}
-	w.Hist[len(w.Hist)-1].Digest = UpdateDigest(au)
+	a := w.Hist[len(w.Hist)-1]
+	a.Digest = UpdateDigest(au)
+	a.AU = au
+	a.CSBytes = StateBytes(cs)
 	return w.CheckInvariants(&au)
 }
 
@@ -620,6 +625,9 @@ func (w *World) Revert() *Problem {
 	if p, st := try(func() { ru = consensus.RevertBlock(a.PrevCS, a.B, a.BS) }); p != nil {
 		return problem("revert|panic", "RevertBlock panicked: %v\n%s", p, st)
 	}
+	if p := diffsMirror(a.AU, ru); p != nil {
+		return p
+	}
 	if p, st := try(func() { w.Store.Revert(ru, a.PrevCS.Elements.NumLeaves) }); p != nil {
 		return problem("revert|panic", "applying the RevertUpdate to the store panicked: %v\n%s", p, st)
 	}
@@ -764,4 +772,113 @@ func StateBytes(cs consensus.State) []byte {
 	cs.EncodeTo(e)
 	e.Flush()
 	return buf.Bytes()
+}
+
+func seEqNoProof(a, b types.StateElement) bool { return a.LeafIndex == b.LeafIndex }
+
+// diffsMirror: the RevertUpdate reports precisely the elements the ApplyUpdate
+// reported, with the same flags and contents, in reverse order.
+func diffsMirror(au consensus.ApplyUpdate, ru consensus.RevertUpdate) *Problem {
+	{
+		a, r := au.SiacoinElementDiffs(), ru.SiacoinElementDiffs()
+		if len(a) != len(r) {
+			return problem("revert|diffs-count", "siacoin diffs: apply reported %d, revert %d", len(a), len(r))
+		}
+		for i := range a {
+			x, y := a[i], r[len(r)-1-i]
+			if x.SiacoinElement.ID != y.SiacoinElement.ID || x.Created != y.Created || x.Spent != y.Spent || x.SiacoinElement.SiacoinOutput != y.SiacoinElement.SiacoinOutput ||
+				x.SiacoinElement.MaturityHeight != y.SiacoinElement.MaturityHeight || !seEqNoProof(x.SiacoinElement.StateElement, y.SiacoinElement.StateElement) {
+				return problem("revert|diffs-siacoin", "siacoin diff %d of apply is not mirrored by revert diff %d (id/flags/contents/leaf index differ)", i, len(r)-1-i)
+			}
+		}
+	}
+	{
+		a, r := au.SiafundElementDiffs(), ru.SiafundElementDiffs()
+		if len(a) != len(r) {
+			return problem("revert|diffs-count", "siafund diffs: apply reported %d, revert %d", len(a), len(r))
+		}
+		for i := range a {
+			x, y := a[i], r[len(r)-1-i]
+			if x.SiafundElement.ID != y.SiafundElement.ID || x.Created != y.Created || x.Spent != y.Spent || x.SiafundElement.SiafundOutput != y.SiafundElement.SiafundOutput ||
+				x.SiafundElement.ClaimStart != y.SiafundElement.ClaimStart || !seEqNoProof(x.SiafundElement.StateElement, y.SiafundElement.StateElement) {
+				return problem("revert|diffs-siafund", "siafund diff %d of apply is not mirrored by revert", i)
+			}
+		}
+	}
+	{
+		a, r := au.FileContractElementDiffs(), ru.FileContractElementDiffs()
+		if len(a) != len(r) {
+			return problem("revert|diffs-count", "file contract diffs: apply reported %d, revert %d", len(a), len(r))
+		}
+		for i := range a {
+			x, y := a[i], r[len(r)-1-i]
+			same := x.FileContractElement.ID == y.FileContractElement.ID && x.Created == y.Created && x.Resolved == y.Resolved && x.Valid == y.Valid &&
+				(x.Revision == nil) == (y.Revision == nil) && reflect.DeepEqual(normFC(x.FileContractElement.FileContract), normFC(y.FileContractElement.FileContract)) &&
+				seEqNoProof(x.FileContractElement.StateElement, y.FileContractElement.StateElement)
+			if same && x.Revision != nil {
+				same = reflect.DeepEqual(normFC(*x.Revision), normFC(*y.Revision))
+			}
+			if !same {
+				return problem("revert|diffs-filecontract", "file contract diff %d of apply is not mirrored by revert", i)
+			}
+		}
+	}
+	{
+		a, r := au.V2FileContractElementDiffs(), ru.V2FileContractElementDiffs()
+		if len(a) != len(r) {
+			return problem("revert|diffs-count", "v2 contract diffs: apply reported %d, revert %d", len(a), len(r))
+		}
+		for i := range a {
+			x, y := a[i], r[len(r)-1-i]
+			same := x.V2FileContractElement.ID == y.V2FileContractElement.ID && x.Created == y.Created && (x.Revision == nil) == (y.Revision == nil) &&
+				(x.Resolution == nil) == (y.Resolution == nil) && x.V2FileContractElement.V2FileContract == y.V2FileContractElement.V2FileContract &&
+				seEqNoProof(x.V2FileContractElement.StateElement, y.V2FileContractElement.StateElement)
+			if same && x.Revision != nil {
+				same = *x.Revision == *y.Revision
+			}
+			if same && x.Resolution != nil {
+				same = reflect.TypeOf(x.Resolution) == reflect.TypeOf(y.Resolution)
+			}
+			if !same {
+				return problem("revert|diffs-v2filecontract", "v2 contract diff %d of apply is not mirrored by revert", i)
+			}
+		}
+	}
+	if au.ChainIndexElement().ID != ru.ChainIndexElement().ID || au.ChainIndexElement().ChainIndex != ru.ChainIndexElement().ChainIndex {
+		return problem("revert|diffs-chainindex", "chain index element of revert differs from apply")
+	}
+	return nil
+}
+
+// ReorgRoundTrip reverts the k tip blocks of a clone of w one by one (checking
+// the revert oracle at each step) and re-applies the same blocks, requiring
+// byte-identical states and update digests, and the original store.
+func (w *World) ReorgRoundTrip(k int) *Problem {
+	if k >= len(w.Hist) {
+		return nil
+	}
+	c := w.Clone()
+	orig := append([]*Applied(nil), w.Hist[len(w.Hist)-k:]...)
+	for i := 0; i < k; i++ {
+		if p := c.Revert(); p != nil {
+			return p
+		}
+	}
+	for _, a := range orig {
+		err, p := c.Apply(a.B, a.BS)
+		if p != nil {
+			return p
+		}
+		if err != nil {
+			return problem("reorg|reapply-rejected", "block at height %d rejected when re-applied after a revert: %v", a.PrevCS.Index.Height+1, err)
+		}
+		n := c.Hist[len(c.Hist)-1]
+		if !bytes.Equal(n.CSBytes, a.CSBytes) {
+			return problem("reorg|state-differs", "state after re-applying block at height %d is not byte-identical to the first apply", a.PrevCS.Index.Height+1)
+		}
+		if n.Digest != a.Digest {
+			return problem("reorg|update-differs", "update (diffs + tree nodes) after re-applying block at height %d differs from the first apply", a.PrevCS.Index.Height+1)
+		}
+	}
+	return compareStores(c.Store, w.Store)
 }
